@@ -81,7 +81,7 @@ func roRandom(rng *rand.Rand, k int) roScen {
 }
 
 func roRun(id int, sc *roScen, rng *rand.Rand) {
-	port := 47000 + int(vSeed%500)*2 + id%2
+	port := vFreePort("udp")
 	addr := fmt.Sprintf("127.0.0.1:%d", port)
 	var dev *RoachDevice
 	var err error
